@@ -79,9 +79,10 @@ PROPS = {
                      'broker_handlers_channel', 'broker_handlers_registry', 'broker_handlers_subs', 'broker_handlers_routing',
                      'broker_handlers_bus_listener', 'broker_handlers_shutdown'],
         trusted_base=TB_VERUS + TB_REGISTRY + TB_CONN + [
-            'BusListener::{add_filter, remove_filter} are '
-            'ASSUMED on the filter set only (`|=` on bool, iterator adapters), so the cached flags behind '
-            'specific_objects()/specific_services() and their unreachable!() arms are NOT decided',
+            'BusListener::{matches_object, matches_service, matches_new_event, specific_objects, specific_services} are ASSUMED '
+            'without contract (iterator adapters with closures returning iterators): the unreachable!() arms inside '
+            'specific_objects()/specific_services() are guarded by the cached flags, whose correctness (BusListener::flags_ok) IS '
+            'proved for every listener in every reachable table (part of bl_inv), but the arms themselves are not checked',
         ],
         assumptions=[
             'panic-freedom is decided per verified handler: Verus proves every expect("inconsistent state"), unreachable!(), '
@@ -244,8 +245,6 @@ PROPS = {
                      'contract; emit_bus_event and process_loop_result are not verified'],
         undecided_clauses=[
             'that exactly the matching current entities are enumerated, per-connection de-duplication, event ordering',
-            'cached flags under add_filter/remove_filter (|= on bool and iterator adapters are outside Verus; the '
-            'HashSet<BusListenerFilter> + ConnectionId state is outside Kani)',
         ],
         explanation='filter predicate equals its specification for all six filter shapes, all ids and all four bus '
                     'events (Kani, complete); listener start/stop state machine and flag reset (Verus); handler layer: only the '
